@@ -164,10 +164,30 @@ impl<A: ToJ, C: ToJ, D: ToJ, E: ToJ> ToJ for (A, C, D, E) {
 pub struct Ev {
     pub o: Obj,
     pub pan: Vec<Value>,
+    cov0: Vec<u64>,
 }
+
+/// Coverage counters compiled into ruint under `--cfg recmo_uint_verif` (names of rare branches).
+#[cfg(recmo_uint_verif)]
+fn cov_snapshot() -> Vec<u64> {
+    ruint::verif_hooks::snapshot().to_vec()
+}
+#[cfg(not(recmo_uint_verif))]
+fn cov_snapshot() -> Vec<u64> {
+    vec![]
+}
+#[cfg(recmo_uint_verif)]
+fn cov_names() -> &'static [&'static str] {
+    ruint::verif_hooks::NAMES
+}
+#[cfg(not(recmo_uint_verif))]
+fn cov_names() -> &'static [&'static str] {
+    &[]
+}
+
 impl Ev {
     pub fn new(scn: &Obj) -> Self {
-        Ev { o: scn.clone(), pan: vec![] }
+        Ev { o: scn.clone(), pan: vec![], cov0: cov_snapshot() }
     }
     /// Run one call of the code under test; a panic is data.
     pub fn rec<T: ToJ>(&mut self, name: &str, f: impl FnOnce() -> T) {
@@ -182,6 +202,17 @@ impl Ev {
         self.o.insert(name.to_string(), v);
     }
     pub fn finish(mut self) -> Value {
+        let now = cov_snapshot();
+        let mut cov = Obj::new();
+        for (i, name) in cov_names().iter().enumerate() {
+            let d = now[i] - self.cov0[i];
+            if d > 0 {
+                cov.insert(name.to_string(), Value::from(d));
+            }
+        }
+        if !cov.is_empty() {
+            self.o.insert("cov".into(), Value::Object(cov));
+        }
         self.o.insert("pan".into(), Value::Array(self.pan));
         self.o.insert("st".into(), Value::String("ok".into()));
         Value::Object(self.o)
